@@ -24,7 +24,7 @@ def key(sid):
     return (p, int(n))
 
 rows = []
-own = other = none = 0
+own = other = none = nobuild = 0
 for sid in sorted(matrix, key=key):
     row = matrix[sid]
     prop = sid.split("-")[0]
@@ -37,6 +37,12 @@ for sid in sorted(matrix, key=key):
     summ = summ[:110] + ("..." if len(summ) > 110 else "")
     if "error" in row:
         rows.append(f"| {sid} | {summ} | (patch does not apply) | |")
+        continue
+    broken = [c for c, v in row.items() if any(x.startswith("(exit") for x in v)]
+    if broken and prop in broken:
+        nobuild += 1
+        others = sorted(c for c in row if c not in broken)
+        rows.append(f"| {sid} | {summ} | (the harness does not build against this change: exit 2) | {' '.join(others) or '-'} |")
         continue
     mine = row.get(prop, [])
     others = sorted(c for c in row if c != prop)
@@ -51,7 +57,7 @@ for sid in sorted(matrix, key=key):
 
 table = []
 table.append(f"{len(matrix)} changes; {own} are reported by the check of the property they were written against, "
-             f"{other} only by the check of another property, {none} by none (see the end of section 4.A for each of those).  "
+             f"{other} only by the check of another property, {none} by none and {nobuild} break the build of the harness itself (see the 'Not reached / not reported' items of section 4.A for each of those).  "
              "Columns: the change, what it does (from its meta.json), the first violation signatures of its own property's quick check, "
              "the other properties whose quick check reports it as well.  Reproduce a row with "
              "`tools/mutate.sh seeded/<id>/patch.diff <Cxx> ...`; the whole table with `tools/seeded_matrix.py` and `tools/matrix_table.py`.\n")
@@ -67,4 +73,4 @@ if "SEEDED_TABLE_PLACEHOLDER" in d:
 else:
     d = re.sub(re.escape(begin) + r".*?" + re.escape(end), lambda m: f"{begin}\n{text}\n{end}", d, flags=re.S)
 open(dp, "w").write(d)
-print(f"{len(matrix)} changes: own={own} other-only={other} none={none}")
+print(f"{len(matrix)} changes: own={own} other-only={other} none={none} nobuild={nobuild}")
